@@ -2,7 +2,7 @@
     Only theorem statements; proofs are [exact] of lemmas from Proofs/. *)
 From Coq Require Import List ZArith NArith Bool Sorted Permutation.
 From HK Require Import Model.Queue Model.QueueMon Proofs.QueueBase Proofs.QueueInv Proofs.QueueInvStep
-  Proofs.QueueStep Proofs.QueueManage.
+  Proofs.QueueStep Proofs.QueueManage Proofs.QueueMonSound.
 Import ListNotations.
 Open Scope Z_scope.
 
@@ -92,6 +92,13 @@ Theorem C14_filter_changed_equals_matched : forall now k f s,
   Inv s -> f_preview f = false -> exists n, snd (step_manage_f now k f s) = RCount n n false.
 Proof. exact filter_count_is_matched. Qed.
 
+(** The executable monitor P_C14 that the check evaluates on implementation traces is implied by these
+    theorems: it holds on every trace of the model (so it never raises an alarm where the property holds),
+    over the operations the Store interface has (there is no by-filter DLQ operation). *)
+Theorem C14_monitor_holds_on_model : forall fl c xs,
+  Forall (fun xo : op * oracle => store_op (fst xo)) xs -> P_C14 fl c (model_trace fl c xs) = true.
+Proof. exact P_C14_holds_on_model. Qed.
+
 Example C14_witness :
   let e i t := mkEnq (Some i) 1%N 1%N (Some t) None 5%N 0%N 0%N in
   let o0 := mkOracle [] [] [] [] in
@@ -110,3 +117,4 @@ Print Assumptions C14_filter_selection.
 Print Assumptions C14_by_filter_exact.
 Print Assumptions C14_preview_equals_real.
 Print Assumptions C14_filter_changed_equals_matched.
+Print Assumptions C14_monitor_holds_on_model.
